@@ -1,9 +1,10 @@
 SPECIFICATION Spec
 CONSTANTS
-  Part = "switch"
-  BoolSize = "q"
+  Part = "bool"
+  BoolSize = "t"
   AndMerge = "fixed"
-  MaxArms = 3
-INVARIANT SwitchOK
+  MaxArms = 1
+INVARIANT BoolRefOK
+INVARIANT SwitchSound
 INVARIANT Publish
 CHECK_DEADLOCK FALSE
